@@ -413,6 +413,11 @@ class Escape:
                     if self._maybe_none_match(fi, n.value.id, n):
                         out.add(self._item(fi, n, IDIOM_NONE_ATTR, '%s %s.%s on a possibly failed match' % (
                             fi.loc(n), n.value.id, n.attr), 'none-attr'))
+                if self.count_idioms and isinstance(n.value, ast.Name):
+                    src = self._maybe_none_element(fi, n.value.id)
+                    if src and not guarded_truthy(fi.node, n.value.id, n):
+                        out.add(self._item(fi, n, IDIOM_NONE_ATTR, '%s %s.%s on an element that %s can leave None' % (
+                            fi.loc(n), n.value.id, n.attr, src), 'none-attr'))
             elif isinstance(n, ast.Subscript) and isinstance(n.ctx, ast.Load) and self.count_idioms:
                 it = self._subscript(fi, n)
                 if it is not None:
@@ -598,6 +603,43 @@ class Escape:
                         return True
         return False
 
+    def _none_positions(self, g):
+        """Positions of the tuples a repository function returns / yields / collects that can hold None: the element is the
+        literal None or a local of g with a definition `= None`."""
+        cache = self.__dict__.setdefault('_nonepos', {})
+        if g.qual in cache:
+            return cache[g.qual]
+        pos = set()
+        defs = U.local_defs(g.node)
+        tuples = []
+        for n in walk_no_nested(g.node):
+            if isinstance(n, (ast.Yield, ast.Return)) and isinstance(n.value, ast.Tuple):
+                tuples.append(n.value)
+            if isinstance(n, ast.Call) and isinstance(n.func, ast.Attribute) and n.func.attr == 'append' and len(n.args) == 1 \
+                    and isinstance(n.args[0], ast.Tuple):
+                tuples.append(n.args[0])
+        for t in tuples:
+            for i, e in enumerate(t.elts):
+                if isinstance(e, ast.Constant) and e.value is None:
+                    pos.add(i)
+                if isinstance(e, ast.Name) and any(isinstance(v, ast.Constant) and v.value is None for v, k, s_ in defs.get(e.id, []) if v is not None):
+                    pos.add(i)
+        cache[g.qual] = pos
+        return pos
+
+    def _maybe_none_element(self, fi, name):
+        """`name` is bound by unpacking the tuples that a repository function produces (for a, b in g(...)) at a position where
+        g can put None.  Returns g's name or None."""
+        for v, k, st in U.local_defs(fi.node).get(name, []):
+            if isinstance(st, ast.For) and isinstance(st.target, (ast.Tuple, ast.List)) and isinstance(st.iter, ast.Call):
+                idx = [i for i, t in enumerate(st.target.elts) if isinstance(t, ast.Name) and t.id == name]
+                if not idx:
+                    continue
+                for g in self.res.callee_funcs(fi, st.iter, allow_name=False, count=False):
+                    if idx[0] in self._none_positions(g):
+                        return g.name + '()'
+        return None
+
     MAYBE_NONE_CALLS = ('email.utils.parsedate', 'email.utils.parsedate_tz')
 
     def _maybe_none_value(self, fi, arg, use):
@@ -695,6 +737,13 @@ class Escape:
                 if guarded_membership(fi.node, d, idx, n):
                     return None
                 return self._item(fi, n, IDIOM_KEY, '%s %s' % (fi.loc(n), norm_text(n)), 'key')
+        # constant key read from a record (dict) that was built from server data somewhere else: `listing['name']` for a row
+        # produced by a parser.  The producer must be shown to store the key on every path (rule tables), or the lookup guarded.
+        if self.taint is not None and isinstance(n.ctx, ast.Load) and isinstance(idx, ast.Constant) and isinstance(idx.value, str) \
+                and isinstance(base, ast.Name) and self.taint.tainted(fi, base) and _record_from_elsewhere(fi, base.id):
+            if not guarded_membership_text(fi.node, base.id, idx, n) and not _stored_before(fi.node, base.id, idx.value, n):
+                return self._item(fi, n, IDIOM_KEY, '%s %s (constant key of a record built from server data elsewhere)' % (
+                    fi.loc(n), norm_text(n)), 'key')
         # lookup with a key that is server data in a mapping held by an object (`self.jar._cookies[cookie.domain][cookie.path]`):
         # nothing says the key is present unless a membership test or a KeyError handler does
         if self.taint is not None and isinstance(n.ctx, ast.Load) and not isinstance(idx, (ast.Constant, ast.Slice, ast.Tuple)) \
@@ -963,6 +1012,29 @@ def _max_index(fn, e, _depth=0):
         if isinstance(e.op, ast.Sub) and l is not None and isinstance(e.right, ast.Constant) and isinstance(e.right.value, int):
             return l - e.right.value
     return None
+
+
+def _record_from_elsewhere(fi, name):
+    """`name` is a parameter, or a loop variable over a parameter / a call result: a record this function did not build."""
+    if name in fi.params:
+        return name not in ('self', 'cls')
+    ds = U.local_defs(fi.node).get(name, [])
+    if not ds:
+        return False
+    for v, k, s in ds:
+        if k != 'for':
+            return False
+        if not (isinstance(v, ast.Name) and v.id in fi.params or isinstance(v, ast.Call)):
+            return False
+    return True
+
+
+def _stored_before(fn, name, key, node):
+    for n in walk_no_nested(fn):
+        if isinstance(n, ast.Subscript) and isinstance(n.ctx, ast.Store) and isinstance(n.value, ast.Name) and n.value.id == name \
+                and isinstance(n.slice, ast.Constant) and n.slice.value == key and getattr(n, 'lineno', 0) < getattr(node, 'lineno', 0):
+            return True
+    return False
 
 
 def _attribute_chain_root(base, fn=None, _depth=0):
